@@ -56,6 +56,10 @@ def order_extra(rng, rec):
         a, b = nm(), nm()
         s = (f"{a} v. {b}, {v} {gen.rep(rng)} {p}, {gen.num(rng)} {gen.rep(rng)} {gen.num(rng)} (2001); "
              f"as {a} at {gen.num(rng)} held, and {b} at {gen.num(rng)}; {a}, supra, at 5; Id. at 6")
+    elif r < 0.78:
+        a = nm()
+        s = (f"{a} v. {nm()}, {v} {gen.rep(rng)} {p} (1999). In re {nm()} (2001) {gen.num(rng)} {gen.rep(rng)} {gen.num(rng)}. "
+             f"{rng.choice(['Pub. L. No. 94-553', '42 U.S.C. § 1983', 'Id. at 5.'])} {a} at {gen.num(rng)} {gen.rep(rng)}, {gen.num(rng)} supra")
     elif r < 0.85:
         s = "; ".join(f"{nm()} v. {nm()}, {gen.num(rng)} {gen.rep(rng)} {gen.num(rng)}" for _ in range(rng.randint(2, 5)))
     else:
